@@ -435,7 +435,7 @@ func tcpMonitors(ctx *Ctx, prop string, cs *tcpCaseSpec, i int, sp *tcpConnSpec,
 		if !sp.Fin && ob.Close != 1 {
 			ctx.Monitor("C06/probe-close-time", fmt.Sprintf("unauthenticated connection kept open by the client was closed in class %d after %d ms (handshake timeout %d ms)", ob.Close, ob.CloseMs, tcpT.Milliseconds()), rep)
 		}
-	} else if (ob.Status == "ERR_READ_ADDRESS" || ob.Status == "ERR_RELAY_CLIENT") && !sp.Fin && ob.Close != 3 {
+	} else if (ob.Status == "ERR_READ_ADDRESS" || ob.Status == "ERR_RELAY_CLIENT") && !sp.Fin && !sp.CReset && ob.Close != 3 { // (a client that aborted is gone: nothing to keep open)
 		ctx.Monitor("C06/post-auth-active-close", fmt.Sprintf("stream turned invalid after authentication (%s) and the server closed (class %d, %d ms) while the client kept the connection open", ob.Status, ob.Close, ob.CloseMs), rep)
 	}
 	// C05: the default policy, end to end
